@@ -61,8 +61,10 @@ impl Entry {
     }
 }
 
+/// Stack of ignore files in effect. The second field holds the hashes of the paths of
+/// the ignore files on the stack; they identify the context in which an entry is visited.
 #[derive(Clone)]
-struct IgnoreStack(Arc<Vec<Gitignore>>);
+struct IgnoreStack(Arc<Vec<Gitignore>>, Arc<Vec<u128>>);
 
 impl IgnoreStack {
     /// Returns ignore stack initialized with global gitignore settings.
@@ -73,12 +75,17 @@ impl IgnoreStack {
                 log.warn(format!("Error loading global gitignore rules: {err}"))
             }
         }
-        IgnoreStack(Arc::new(vec![gitignore.0]))
+        IgnoreStack(Arc::new(vec![gitignore.0]), Arc::new(vec![]))
     }
 
     /// Returns an empty gitignore stack that ignores no files.
     pub fn empty() -> IgnoreStack {
-        IgnoreStack(Arc::new(vec![]))
+        IgnoreStack(Arc::new(vec![]), Arc::new(vec![]))
+    }
+
+    /// Identifies the set of ignore files on the stack
+    fn id(&self) -> u128 {
+        self.1.iter().fold(0, |a, b| a ^ b)
     }
 
     /// If .gitignore file exists in given dir, creates a `Gitignore` struct for it
@@ -90,7 +97,8 @@ impl IgnoreStack {
             path = Arc::new(dir.clone()).resolve(Path::from(".fdignore"));
             path_buf = path.to_path_buf();
         }
-        if !path_buf.is_file() {
+        // An ignore file is pushed once, even if its directory is entered again through a link
+        if !path_buf.is_file() || self.1.contains(&path.hash128()) {
             return self.clone();
         }
         let gitignore = Gitignore::new(&path_buf);
@@ -105,7 +113,9 @@ impl IgnoreStack {
         }
         let mut stack = self.0.as_ref().clone();
         stack.push(gitignore.0);
-        IgnoreStack(Arc::new(stack))
+        let mut ids = self.1.as_ref().clone();
+        ids.push(path.hash128());
+        IgnoreStack(Arc::new(stack), Arc::new(ids))
     }
 
     /// Returns true if any of the gitignore files in the stack selects given path
@@ -152,7 +162,8 @@ pub struct Walk<'a> {
 /// Private shared state scoped to a single `run` invocation.
 struct WalkState<F> {
     pub consumer: F,
-    pub visited: DashSet<u128>,
+    /// Visited (path, ignore files in effect) pairs
+    pub visited: DashSet<(u128, u128)>,
 }
 
 impl<'a> Walk<'a> {
@@ -286,7 +297,9 @@ impl<'a> Walk<'a> {
 
         // Skip already visited paths. We're checking only when follow_links is true,
         // because inserting into a shared hash set is costly.
-        if self.follow_links && !state.visited.insert(entry.path.hash128()) {
+        // A path reached again under other ignore files is visited again: which files are
+        // found must not depend on the route that happens to be taken first.
+        if self.follow_links && !state.visited.insert((entry.path.hash128(), gitignore.id())) {
             return;
         }
 
